@@ -813,4 +813,38 @@ Proof.
   exact (write_excludes_all (ms cf) t s' (wt_inv cf HW) (estep_write_is_machine_write _ _ _ _ _ _ _ He Hw) u Hne).
 Qed.
 
+(* ---------- every execution of a program is a schedule of the machine ----------
+   Each step of the program semantics is silent for the machine or is exactly one of its actions; so every execution
+   projects to a machine schedule, and everything proved of ALL schedules (conc/Top.v, conc/Values.v, conc/Contents.v) holds
+   of the executions of every program, typed or not. *)
+Lemma estep_mach t s c g s' c' g' : estep t s c g s' c' g' -> s' = s \/ exists a, step s t a = Ok s'.
+Proof.
+  intros H. destruct H; try (left; reflexivity); try (right; eexists; eassumption);
+    match goal with Hr : read_step _ _ _ |- _ => destruct Hr as [Hr|[Hr|Hr]]; right; eexists; exact Hr end.
+Qed.
+Lemma cstep_mach cf cf' : cstep cf cf' -> ms cf' = ms cf \/ exists t a, step (ms cf) t a = Ok (ms cf').
+Proof.
+  intros H. destruct H; cbn [ms]; try (left; reflexivity); try (right; eexists _, _; eassumption).
+  match goal with He : estep _ _ _ _ _ _ _ |- _ => destruct (estep_mach _ _ _ _ _ _ _ He) as [->|(a & Ha)] end;
+    [left; reflexivity|right; eexists _, _; exact Ha].
+Qed.
+Theorem csteps_schedule cf cf' : csteps cf cf' -> exists sched, Mach.run (ms cf) sched = Ok (ms cf').
+Proof.
+  intros H. induction H as [cf|cf cf1 cf2 H1 _ (sched & IH)]; [exists []; reflexivity|].
+  destruct (cstep_mach _ _ H1) as [E|(t & a & E)].
+  - exists sched. rewrite <- E. exact IH.
+  - exists ((t, a) :: sched). cbn [Mach.run]. rewrite E. exact IH.
+Qed.
+
+(* ... in particular of a typed program: along its schedule, whatever a thread that can reach the buffer throughout
+   finds written, reallocated or released, it did itself *)
+Theorem typed_execution_contents cf0 cf :
+  WT cf0 -> csteps cf0 cf ->
+  exists sched, Mach.run (ms cf0) sched = Ok (ms cf)
+    /\ forall t, held_through (ms cf0) t sched -> Forall (fun ua => (snd ua = AWrite \/ snd ua = AFree) -> fst ua = t) sched.
+Proof.
+  intros W Hs. destruct (csteps_schedule cf0 cf Hs) as (sched & Hrun). exists sched. split; [exact Hrun|].
+  intros t Hh. exact (writes_while_held_are_own t sched (ms cf0) (ms cf) (wt_inv cf0 W) Hrun Hh).
+Qed.
+
 End Compose.
